@@ -22,6 +22,7 @@ def paths(S, s, runtime):
         ("slice-literal", ["sl1 := []string{%s, \"k\"}" % S, "print(sl1[0])", "print(len(sl1))"], [s, "2"]),
         ("slice-store", ["var sl2 []string", "sl2[1] = %s" % S, "print(sl2[1])", "print(len(sl2))"], [s, "2"]),
         ("slice-range", ["sl3 := []string{%s}" % S, "for i3, e3 := range sl3 {", "\tprint(e3)", "}"], [s]),
+        ("slice-copy", ["cs6 := []string{%s, \"k\"}" % S, "cd6 := []string{}", "print(copy(cd6, cs6))", "print(cd6[0])", "print(cd6[0] == cs6[0])"], ["2", s, "1"]),
         ("subscript", ["v4 := %s" % S, "print(v4[0:len(v4)])"], [s]),
         ("len", ["print(len(%s))" % S], [str(len(s.encode()))]),
         ("string-range", ["v5 := %s" % S, "for i5, c5 := range v5 {", '\tprint("[" + c5 + "]")', "}"], ["[" + c + "]" for c in chars]),
